@@ -6,6 +6,7 @@ import (
 	"regexp"
 	"strings"
 	"testing"
+	"time"
 
 	"pgregory.net/rapid"
 
@@ -24,6 +25,9 @@ type caseC20 struct {
 	Strs   []string      `json:"strs,omitempty"` // string literals whose values must reach the pool
 	Mut    *gen.Mutation `json:"mutation,omitempty"`
 	NoExec bool          `json:"noexec,omitempty"`
+	// Script2, if present: rendering 2 is read through ParseFile in these
+	// read sizes (layout must not matter for the streaming entry point either)
+	Script2 []readStep `json:"script2,omitempty"`
 }
 
 var lineColRe = regexp.MustCompile(`line \d+:\d+`)
@@ -43,6 +47,13 @@ func diagMessages(log string) []string {
 func checkC20(c caseC20) string {
 	p1 := parseWhole(c.Src1, "n")
 	p2 := parseWhole(c.Src2, "n")
+	if len(c.Script2) > 0 {
+		fr := parseFileWatch(&scriptFile{data: []byte(c.Src2), script: c.Script2, name: "n"}, 20*time.Second)
+		if fr.timedOut {
+			return "ParseFile of rendering 2 did not return"
+		}
+		p2 = parsed{prog: fr.prog, err: fr.err, log: fr.log, out: fr.out, dump: fr.dump, pan: fr.pan}
+	}
 	if p1.pan != nil || p2.pan != nil {
 		return fmt.Sprintf("Parse panicked: %v / %v", p1.pan, p2.pan)
 	}
@@ -213,6 +224,10 @@ func TestC20(t *testing.T) {
 			c.Src1, _ = renderChecked(toks, l1)
 			c.Src2, _ = renderChecked(toks, l2)
 			diff, rich = layoutDiff(l1, l2)
+		}
+		if gen.Chance(t, 30, "viafile") {
+			_, c.Script2 = drawScript(t, len(c.Src2))
+			feats = append(feats, "rendering2-via-ParseFile")
 		}
 		feats = append(feats, "kind:"+c.Kind)
 		for _, s := range []string{c.Src1, c.Src2} {
